@@ -1,10 +1,10 @@
 #!/usr/bin/env python3
 """save_seed.py <Cxx> [<Cxx>…]: store a confirmed seeded change under /verif/seeded/<id>/ (patch.diff, demo, meta.json).
-Reads /tmp/mut/<Cxx>-out (the sub-agent's output), /tmp/mut/confirm*.log (our own confirmation) and
-/tmp/mut/try-<Cxx>.log (what ./check said with the change applied)."""
+Reads /tmp/mut2/<Cxx>-out (the sub-agent's output), /tmp/mut2/confirm*.log (our own confirmation) and
+/tmp/mut2/try-<Cxx>.log (what ./check said with the change applied)."""
 import json, os, re, shutil, sys, glob
 for P in sys.argv[1:]:
-    out = f"/tmp/mut/{P}-out"
+    out = f"/tmp/mut2/{P}-out"
     dst = f"/verif/seeded/{P}"
     os.makedirs(dst, exist_ok=True)
     shutil.copy(f"{out}/patch.diff", f"{dst}/patch.diff")
@@ -13,7 +13,7 @@ for P in sys.argv[1:]:
     shutil.copy(demos[0], f"{dst}/{os.path.basename(demos[0])}")
     meta = json.load(open(f"{out}/meta.json")) if os.path.exists(f"{out}/meta.json") else {}
     conf = None
-    for lg in sorted(glob.glob("/tmp/mut/confirm*.log")):
+    for lg in sorted(glob.glob("/tmp/mut2/confirm*.log")):
         for l in open(lg):
             if l.startswith(P + ":"):
                 conf = l.strip()
@@ -21,7 +21,7 @@ for P in sys.argv[1:]:
     m = re.search(r"demo_with_change_rc=(\d+) demo_without_change_rc=(\d+) suite_rc=(\d+) passed=(\d+) failed=(\d+)", conf)
     w, wo, s, pa, fa = map(int, m.groups())
     assert w != 0 and wo == 0 and s == 0 and pa == 42 and fa == 0, conf
-    tl = open(f"/tmp/mut/try-{P}.log").read()
+    tl = open(f"/tmp/mut2/try-{P}.log").read()
     viol = re.findall(r"^\[check\] violation: (.*)$", tl, re.M)
     vline = re.findall(r"^VIOLATION .*$", tl, re.M)
     meta.update({
